@@ -2,7 +2,7 @@
     Model: Model/EventGw.v — n alternatives parked at their catch events, the compare-and-swap in
     the action transformer, the winner's notification of every other alternative over its
     termination channel, events delivered in any order and concurrently (every path = a schedule). *)
-From BV Require Import Model.EventGw Proofs.EventGwProofs Model.TermChan Proofs.TermChanProofs.
+From BV Require Import Model.EventGw Proofs.EventGwProofs Model.TermChan Proofs.TermChanProofs Gen.Facts.
 
 (* at most one alternative wins and at most one branch ever continues — any n, any delivery
    sequence, any schedule, both code variants *)
@@ -74,6 +74,22 @@ Theorem C06_withdrawal_refuted_when_the_table_is_replaced :
             forall p s', texec true s p = Some s' -> tget s' 1 = Deaf.
 Proof. exact refuted_table_swapped. Qed.
 Print Assumptions C06_withdrawal_refuted_when_the_table_is_replaced.
+
+(* THE VARIANT THE SOURCES SHOW (facts read off gateway_event_based.go on every run, harness/protocol.go): the
+   termination channels are buffered, the table is not replaced inside the function literals, the determination is one
+   compare-and-swap — the theorems above, stated for exactly that variant *)
+Theorem C06_progress_for_the_source_variant : forall n s, greach (0 <? src_termchan_capacity) n s -> first s = true ->
+  (exists i, i < n /\ is_open (aget s i) = true) ->
+  exists l s', internal l = true /\ gstep (0 <? src_termchan_capacity) s l = Some s'.
+Proof. exact C06_progress. Qed.
+Print Assumptions C06_progress_for_the_source_variant.
+Theorem C06_no_alternative_without_channel_for_the_source_variant :
+  forall n s, treach (negb src_termchan_table_kept) n s -> forall j, tget s j <> Deaf.
+Proof. exact never_deaf. Qed.
+Print Assumptions C06_no_alternative_without_channel_for_the_source_variant.
+Theorem C06_determination_is_one_compare_and_swap : src_determination_is_cas = true.
+Proof. reflexivity. Qed.
+Print Assumptions C06_determination_is_one_compare_and_swap.
 
 Example C06_nonvacuous :
   exists s, gexec true (ginit 3) [Deliver 1; Deliver 2; Cas 2; Notify; Cas 1; Notify; TakeNotice 0; Proceed; Deliver 0; Deliver 1] = Some s /\
